@@ -70,7 +70,13 @@ func signingKey(t *rapid.T, d *big.Int) *secec.PrivateKey {
 		k.PublicKey().Point().Identity()
 		return k
 	}
-	return lib.PrivKey(d)
+	k := lib.PrivKey(d)
+	if rapid.Bool().Draw(t, "derive-schnorr-first") {
+		// other packages derive their own key objects from this one; that must leave it as it was
+		_ = bitcoin.NewSchnorrPublicKeyFromECDSA(k.PublicKey())
+		_ = bitcoin.NewSchnorrPrivateKeyFromECDSA(k)
+	}
+	return k
 }
 
 func digestBytes(t *rapid.T, n int) ([]byte, string) {
@@ -181,6 +187,10 @@ func propSignRaw(t *rapid.T) {
 		t.Fatalf("SignRaw failed for an admissible digest: %v", err)
 	}
 	ri, si := lib.ScInt(r), lib.ScInt(s)
+	// the signature verifies under the signing key's own public half (the very object, not a re-import)
+	if !key.PublicKey().VerifyRaw(digest, r, s) || !bytes.Equal(key.PublicKey().Point().UncompressedBytes(), ref.BaseMul(d).Uncompressed()) {
+		t.Fatalf("SignRaw output does not verify under the signing key's PublicKey() object (d=%x)", d)
+	}
 	// classify the outcome (which R was used, was s negated)
 	cl := []string{"d:" + dk, "digest:" + digk, "rng:" + rdesc, fmt.Sprintf("key-y-odd:%d", q.Y.Bit(0)), fmt.Sprintf("v:%d", v)}
 	if dlen != 32 {
